@@ -180,7 +180,8 @@ CHECKS["C06"] = dict(
    text="For system sizes ncell x neq in {1x1,2x1,3x1,2x2,3x2} and ALL operator entries, fields, dt: calc_jacobian returns "
         "the operator (layout row=cell*neq+eq); implicit solves (I-dtA)Q'=Q, trapezoidal/cranknicolson (I-dtA/2)Q'=(I+dtA/2)Q, "
         "gear starts with one Crank-Nicolson step of size dt and then satisfies 3Q2-4Q1+Q0=2dt A Q2 with the history "
-        "invariant; time advances by dt. Unbounded: the finite-difference perturbation is proportional to mean|q| with a "
+        "invariant; time advances by dt; with a per-cell time-step array (dtlocal) implicit / cranknicolson solve the same systems "
+        "with dt_i on every equation of cell i (local-dt/*). Unbounded: the finite-difference perturbation is proportional to mean|q| with a "
         "relative size inside the rounding/truncation window [4.4e-13,1e-3] and never zero; no-growth of 1/(1-z) and "
         "(1+z/2)/(1-z/2) for Re z<=0; orders 1/2/2.",
    note=TB + "; numpy.linalg.solve assumed (M x = b, nonsingular); the linear-system identities are a bounded stand-in in the "
